@@ -744,8 +744,8 @@ func (p *Prog) proveNonZeroDepth(fn *ssa.Function, at ssa.Instruction, v ssa.Val
 	}
 	if phi, ok := base.(*ssa.Phi); ok && depth < 3 {
 		all := len(phi.Edges) > 0
-		for _, e := range phi.Edges {
-			if ok, _ := p.proveNonZeroDepth(fn, at, e, depth+1); !ok {
+		for i, e := range phi.Edges {
+			if ok, _ := p.proveNonZeroDepth(fn, at, e, depth+1); !ok && !edgeExcludesZero(phi, i) {
 				all = false
 			}
 		}
@@ -833,4 +833,44 @@ func (p *Prog) CountNonZero(fn *ssa.Function, div *ssa.BinOp, count ssa.Value) (
 		}
 	}
 	return false, "no clamp, test or enclosing loop excludes a zero count"
+}
+
+// edgeExcludesZero: the i-th edge of the phi leaves a block that ends in a test of the merged value against a
+// constant, and under the scenario "value == 0" that test sends control elsewhere (`if n < 1 { n = 1 }`).
+func edgeExcludesZero(phi *ssa.Phi, i int) bool {
+	pred := phi.Block().Preds[i]
+	e := phi.Edges[i]
+	if len(pred.Instrs) == 0 {
+		return false
+	}
+	ifi, ok := pred.Instrs[len(pred.Instrs)-1].(*ssa.If)
+	if !ok || pred.Succs[0] == pred.Succs[1] {
+		return false
+	}
+	cond, neg := normCond(ifi.Cond)
+	cmp, ok := cond.(*ssa.BinOp)
+	if !ok {
+		return false
+	}
+	var truth bool
+	if k, ok := constIntegral(cmp.Y); ok && sameValue(cmp.X, e) {
+		truth = cmpInts(cmp.Op, 0, k)
+	} else if k, ok := constIntegral(cmp.X); ok && sameValue(cmp.Y, e) {
+		truth = cmpInts(cmp.Op, k, 0)
+	} else {
+		return false
+	}
+	switch cmp.Op {
+	case token.LSS, token.LEQ, token.GTR, token.GEQ, token.EQL, token.NEQ:
+	default:
+		return false
+	}
+	if neg {
+		truth = !truth
+	}
+	taken := pred.Succs[1]
+	if truth {
+		taken = pred.Succs[0]
+	}
+	return taken != phi.Block()
 }
